@@ -197,6 +197,15 @@ func runCheck(repo, verif, prop, tier string, keep bool, only string, verbose bo
 		}
 		r := eng.verifyContract(c)
 		results = append(results, r)
+		for _, cc := range c.Closures {
+			cr := eng.verifyClosure(c, cc)
+			results = append(results, cr)
+			for _, k := range sortedContracts(cr.Exec.usedContracts) {
+				if uc := cr.Exec.usedContracts[k]; !uc.Trusted {
+					queue = append(queue, uc)
+				}
+			}
+		}
 		for _, k := range sortedContracts(r.Exec.usedContracts) {
 			uc := r.Exec.usedContracts[k]
 			if !uc.Trusted {
